@@ -38,10 +38,18 @@ type Config struct {
 	NoMerge       bool              `json:"no_merge"`
 	MakeLenSplit  int               `json:"make_len_split"`
 	SliceLenSplit int               `json:"slice_len_split"`
+	ExtraOverlays []ExtraOverlay    `json:"extra_overlays"`
+	OnlyFiles     []string          `json:"only_files"`
 	DumpSMT       string            `json:"dump_smt"`
 	PerHarness    map[string]*HarnessOpts `json:"per_harness"`
 
 	allocHook func(in *Interp, instr ssa.Instruction, n int64)
+}
+
+type ExtraOverlay struct {
+	Dir   string   `json:"dir"`
+	Pkg   string   `json:"pkg"`
+	Files []string `json:"files"`
 }
 
 type HarnessOpts struct {
